@@ -20,7 +20,16 @@ import (
 
 type CliCase struct {
 	Case
-	Seed int64 `json:"seed"`
+	Seed  int64       `json:"seed"`
+	More  []*ref.Node `json:"more,omitempty"` // further trees of the input stream
+	First bool        `json:"more_first,omitempty"`
+}
+
+func (c CliCase) stream() []*ref.Node {
+	if c.First {
+		return append(append([]*ref.Node{}, c.More...), c.Tree)
+	}
+	return append([]*ref.Node{c.Tree}, c.More...)
 }
 
 func checkCli(c CliCase) error {
@@ -51,35 +60,45 @@ func checkCli(c CliCase) error {
 	case "resolve":
 		args = []string{"resolve", "--seed", strconv.FormatInt(c.Seed, 10)}
 	}
-	return cli.Differential(args, ref.Write(c.Tree)+"\n", nil, func() (string, error) {
-		t, err := gt.FromModel(c.Tree)
-		if err != nil {
-			return "", err
-		}
-		switch c.Kind {
-		case "length":
-			t.CollapseShortBranches(c.Thr, c.RemoveRoot, c.RemoveTips)
-		case "support":
-			t.CollapseLowSupport(c.Thr, c.RemoveRoot)
-		case "depth":
-			if err := t.ReinitIndexes(); err != nil {
-				return "", err
-			}
-			if err := t.CollapseTopoDepth(c.Min, c.Max, c.RemoveRoot, c.RemoveTips); err != nil {
-				return "", err
-			}
-		case "resolve":
+	text := ""
+	for _, m := range c.stream() {
+		text += ref.Write(m) + "\n"
+	}
+	return cli.Differential(args, text, nil, func() (string, error) {
+		out := ""
+		if c.Kind == "resolve" {
 			rand.Seed(c.Seed)
-			t.Resolve()
 		}
-		return t.Newick() + "\n", nil
+		for _, m := range c.stream() {
+			t, err := gt.FromModel(m)
+			if err != nil {
+				return "", err
+			}
+			switch c.Kind {
+			case "length":
+				t.CollapseShortBranches(c.Thr, c.RemoveRoot, c.RemoveTips)
+			case "support":
+				t.CollapseLowSupport(c.Thr, c.RemoveRoot)
+			case "depth":
+				if err := t.ReinitIndexes(); err != nil {
+					return "", err
+				}
+				if err := t.CollapseTopoDepth(c.Min, c.Max, c.RemoveRoot, c.RemoveTips); err != nil {
+					return "", err
+				}
+			case "resolve":
+				t.Resolve()
+			}
+			out += t.Newick() + "\n"
+		}
+		return out, nil
 	})
 }
 
 func TestC07Cli(t *testing.T) {
 	h.Run(t, h.Spec[CliCase]{
 		Property: "C07", Name: "cli", Quick: 1600, Thorough: 32000,
-		Rule: "`gotree collapse length -l / support -s / depth -m -M` with --root and --tips, and `gotree resolve --seed`, on the generated trees and thresholds of the library checks: the printed tree must be byte-identical to what the library call gives; non-trivial = >= 5 tips",
+		Rule: "`gotree collapse length -l / support -s / depth -m -M` with --root and --tips, and `gotree resolve --seed`, on the generated trees and thresholds of the library checks: the printed tree must be byte-identical to what the library call gives; half of the inputs are streams of 2-3 trees of different sizes; non-trivial = >= 5 tips",
 		Gen: func(t *rapid.T, thorough bool) CliCase {
 			c := CliCase{Case: genCase(t, false), Seed: rapid.Int64Range(0, 1<<31).Draw(t, "seed")}
 			if rapid.IntRange(0, 3).Draw(t, "resolve") == 0 {
@@ -89,6 +108,12 @@ func TestC07Cli(t *testing.T) {
 			if c.Thr < 0 {
 				c.Thr = 0
 			}
+			for i, n := 0, rapid.SampledFrom([]int{0, 0, 1, 2}).Draw(t, "nmore"); i < n; i++ {
+				o := treeOpts(t, false)
+				o.MinTips, o.MaxTips = 3, 14
+				c.More = append(c.More, gen.Tree(t, o))
+			}
+			c.First = rapid.Bool().Draw(t, "morefirst")
 			return c
 		},
 		Check: checkCli,
@@ -98,4 +123,3 @@ func TestC07Cli(t *testing.T) {
 	})
 }
 
-var _ = gen.None
